@@ -319,6 +319,26 @@ func genCase(t *rapid.T) Case {
 		nprop := rapid.IntRange(0, 3).Draw(t, "nprops")
 		for j := 0; j < nprop; j++ {
 			a := Action{Kind: "prop", Name: ag.draw(t, "property", actionClasses(), labels)}
+			// a property often has the name of the signal which announces its
+			// changes: now and then it takes the name of a signal of the interface
+			if nsig > 0 && rapid.IntRange(0, 4).Draw(t, "likesignal") == 0 {
+				var sigs []string
+				for _, x := range itf.Actions {
+					if x.Kind == "sig" {
+						sigs = append(sigs, x.Name)
+					}
+				}
+				taken := false
+				for _, x := range itf.Actions {
+					if x.Kind == "prop" && len(sigs) > 0 && x.Name == sigs[0] {
+						taken = true
+					}
+				}
+				if len(sigs) > 0 && !taken {
+					a.Name = sigs[0]
+					labels["property-named-like-a-signal"] = true
+				}
+			}
 			pg := &nameGen{used: map[string]bool{}}
 			pt := actionType("prop", "C05:object-typed-property")
 			if pt == "any" && vt.Known("C05:property-of-bare-any") {
